@@ -50,6 +50,16 @@ func (x *Exec) callEnv(st *State, c *Contract, sig *types.Signature, fn *ssa.Fun
 			}
 		}
 		env.fn = fn
+		// the contract's own parameter names (positional): a renamed parameter keeps its clause name
+		if len(c.ParamNames) == len(fn.Params) {
+			for i, n := range c.ParamNames {
+				if n != "_" && i < len(args) {
+					if _, have := env.vars[n]; !have {
+						env.vars[n] = args[i]
+					}
+				}
+			}
+		}
 	}
 	off := 0
 	if sig.Recv() != nil && fn != nil {
@@ -162,6 +172,11 @@ func (x *Exec) applyContract(st *State, fr *Frame, site ssa.Instruction, c *Cont
 				if rs.At(i).Name() != "" && rs.At(i).Name() != "_" {
 					if _, clash := e2.vars[rs.At(i).Name()]; !clash {
 						e2.vars[rs.At(i).Name()] = rv
+					}
+				}
+				if i < len(c.ResultNames) && c.ResultNames[i] != "_" {
+					if _, clash := e2.vars[c.ResultNames[i]]; !clash {
+						e2.vars[c.ResultNames[i]] = rv
 					}
 				}
 			}
